@@ -63,6 +63,42 @@ def run(tier):
     out.add_tlc('CacheMC exhaustive MaxOps=%d' % c['MaxOps'], r)
     out.cov['tlc_constants'] = {k: sorted(v) if isinstance(v, set) else v for k, v in c.items()}
     out.cov['exhaustive'] = True
+    # ---- A2: Consistent is inductive - one step with every operation from EVERY consistent cache of a bounded universe
+    #          (not only the ones reachable in MaxOps steps), which extends A to histories of any length
+    out.stage('A2 inductive step (model)')
+    IND = ['C09_Inductive', 'C09_OverLimit', 'C09_RejectedNoop', 'C09_PopReleases', 'C09_ReadsNoop']
+    big = dict(Keys={'x', 'y', 'z'}, Lens={0, 1, 5, 65536}, Limits={0, 1, 5}, Caps={0, 6, 70000}, MaxFrames=3) if thorough else \
+        dict(Keys={'x', 'y'}, Lens={0, 2, 65536}, Limits={0, 2, 65535}, Caps={0, 3, 140000}, MaxFrames=2)
+    open(os.path.join(w, 'c09ind.cfg'), 'w').write(core.gen_cfg(constants=big, invariants=IND))
+    r = core.tlc(w, 'CacheInd', 'c09ind.cfg', workers=core.NCPU, timeout=3000)
+    core.require_tlc_ok(r, 'CacheInd')
+    if r.violated:
+        raise Infra('CacheInd: Consistent is not inductive in the specification: %s\n%s' % (r.violated, r.out[-2000:]))
+    out.add_tlc('CacheInd: every operation from every consistent cache of the universe %s' % {k: sorted(v) if isinstance(v, set) else v for k, v in big.items()}, r)
+    out.cov['inductive_universe'] = {k: sorted(v) if isinstance(v, set) else v for k, v in big.items()}
+    # the same steps on the real cache, built directly in each state
+    out.stage('A2 inductive step (real cache)')
+    med = dict(Keys={'x', 'y'}, Lens={0, 1, 5, 65536}, Limits={0, 1, 5, 65535}, Caps={0, 6, 140000}, MaxFrames=3) if thorough else big
+    open(os.path.join(w, 'c09indgen.cfg'), 'w').write(core.gen_cfg(constants=med, action_constraint='Emit'))
+    d = core.scratch('verif-c09-')
+    steps = os.path.join(d, 'steps.ndjson')
+    ns = [0]
+    with open(steps, 'w') as f:
+        def sink0(o):
+            f.write(json.dumps(o, separators=(',', ':')) + '\n')
+            ns[0] += 1
+            if ns[0] == 4321:
+                out.sample(dict(kind='step from an arbitrary consistent cache (CacheInd) executed on a real cache built in that state', step=o))
+        r = core.tlc(w, 'CacheInd', 'c09indgen.cfg', workers=1, timeout=3000, mbt_sink=sink0)
+    core.require_tlc_ok(r, 'CacheInd generation')
+    out.add_tlc('CacheInd step emission', r)
+    tr0 = os.path.join(d, 'ind-trace.ndjson')
+    core.run_harness(['cache-steps', steps, tr0], timeout=3000)
+    open(os.path.join(w, 'c09t.cfg'), 'w').write(trace_cfg(TRACE_INVS + ['Drift_Step']))
+    viol, st0 = core.validate_trace('CacheTrace', 'c09t.cfg', tr0, workdir=w, chunk=6000, par=core.NCPU)
+    judge(out, viol, 'inductive step from an arbitrary consistent cache')
+    out.cov['traces_validated_against_impl'] += ns[0]
+    out.cov['evaluations'] += st0['events']
     # ---- B: one real-code test per model transition
     out.stage('B generate')
     g = dict(CONSTS)
@@ -71,7 +107,6 @@ def run(tier):
     if not thorough:
         g.update(Lens={0, 5, 65536}, Limits={0, 5}, Caps={0, 6})
     open(os.path.join(w, 'c09gen.cfg'), 'w').write(core.gen_cfg(constants=g, view='View', action_constraint='Emit'))
-    d = core.scratch('verif-c09-')
     beh = os.path.join(d, 'beh.ndjson')
     nb = [0]
     with open(beh, 'w') as f:
@@ -104,7 +139,7 @@ def run(tier):
     out.cov['traces_validated_against_impl'] += summ2['sequences']
     out.cov['evaluations'] += st2['events']
     kinds = set()
-    for path in (tr, tr2):
+    for path in (tr, tr2, tr0):
         for i, line in enumerate(open(path)):
             ev = json.loads(line)
             kinds.add((ev['o']['op'], ev['ok'], ev['o']['len'] > 65535, ev['o']['limit'] > 0, ev['pre']['cap'] > 0, len(ev['pre']['frames'])))
